@@ -144,3 +144,20 @@ CHECKS["C13"] = {
     "outside": ["DICT real numbers (encodeFloat/decodeFloat use Log10/Pow10/ParseFloat: not in the solver fragment)", "string INDEX / SIDs of custom strings, built-in encodings with supplements", "whole cff.Font Write/Read (CID-keyed fonts, FontInfo, font matrices)", "more than 9 glyphs, 256 private dicts"],
     "assumptions": ["widths on a 1/16 grid (exact dyadic arithmetic)", "default/nominal widths as seen by the reader are taken from the cffDict before DICT serialisation (reals are not serialised symbolically)"],
 }
+
+CHECKS["C05"] = {
+    "harnesses": [
+        H("cff", ["c05.go", "t2ref.go"], "VerifH_C05_path", ["interpreted"], quick={"params": {"fixed": 0}, "timeout": 280}, thorough={"params": {"fixed": 1}, "timeout": 2400}),
+        H("cff", ["c05.go", "t2ref.go"], "VerifH_C05_stems", ["interpreted"], quick={"timeout": 280}),
+        H("cff", ["c05.go", "t2ref.go"], "VerifH_C05_arith", ["interpreted"], quick={"timeout": 280}),
+        H("cff", ["c05.go", "t2ref.go"], "VerifH_C05_stack", ["interpreted"], quick={"timeout": 280}),
+        H("cff", ["c05.go", "t2ref.go"], "VerifH_C05_subr", ["called"], quick={"timeout": 280}),
+        H("cff", ["c05.go", "t2ref.go"], "VerifH_C05_depth", ["done"], quick={"timeout": 100}),
+        H("cff", ["c05.go", "t2ref.go"], "VerifH_C05_fault", ["done"], quick={"timeout": 200}),
+        H("cff", ["c05.go", "t2ref.go"], "VerifH_C05_bytes", ["accepted"], quick={"params": {"maxlen": 3}, "timeout": 280}, thorough={"params": {"maxlen": 5}, "timeout": 2400}),
+    ],
+    "bounds": {"quick": "programs: [width] + one moveto + one path operator (all 14 path/flex operators, every legal operand count up to 13) + endchar; stem programs with 0..2 hstem/vstem pairs, explicit or implicit vstem, hintmask/cntrmask, second mask; one arithmetic/conditional/stack/storage operator with symbolic operands; subroutine tables of size {0,1,1239,1240,33899,33900,40000} with symbolic biased index near both table ends, local and global; call depth 8..11; 8 single-fault classes; arbitrary bytes of length <=3.  Operands symbolic int16 (operator 28) in [-10000,10000] [thorough: 16.16 via operator 255]",
+               "thorough": "16.16 operands; arbitrary bytes <=5"},
+    "outside": ["operands outside [-32000,32000] (the decoder clamps deltas to that range by documented design)", "sqrt, div, random (outside the exact dyadic fragment)", "programs with more than one path operator after the prefix", "agreement with x/image"],
+    "assumptions": ["reference interpreter written from Adobe TN5177 (harness/cff/t2ref.go) is the oracle", "arithmetic operands in [-150,150] so that results stay within the coordinate range"],
+}
